@@ -391,4 +391,138 @@ theorem defaultRoute_spec (m : Mode) (w : Nat) (hw : OkWidth m w) (k : Nat) (M :
     simp [LMat.get, List.getD_eq_getElem?_getD, List.getElem?_eq_getElem (show i < M.length by rw [hM.1]; exact hi)]
 
 
+/-! ## entries of block products, controlled gates -/
+set_option linter.unusedSectionVars false
+
+theorem get_controlledMat (M : LMat α) (i j : Nat) (hi : i < 2 * M.length) (hj : j < 2 * M.length) :
+    LMat.get (controlledMat M) i j =
+      if i < M.length ∨ j < M.length then (if i = j then 1 else 0) else LMat.get M (i - M.length) (j - M.length) := by
+  simp [controlledMat, LMat.get, List.getD_eq_getElem?_getD, hi, hj]
+
+theorem controlledMat_length (M : LMat α) : (controlledMat M).length = 2 * M.length := by
+  simp [controlledMat]
+
+theorem stateEntry_drop (m : Mode) (v : List (Row α m)) (n k col : Nat) :
+    stateEntry m (v.drop n) k col = stateEntry m v (n + k) col := by
+  simp [stateEntry, List.getElem?_drop]
+
+theorem stateEntry_take (m : Mode) (v : List (Row α m)) (n k col : Nat) (hk : k < n) :
+    stateEntry m (v.take n) k col = stateEntry m v k col := by
+  simp [stateEntry, hk]
+
+/-- entry of a block product -/
+theorem blockMul_entry (m : Mode) (w : Nat) (hw : OkWidth m w) (M : LMat α) (t : Nat) (v : List (Row α m))
+    (r col : Nat) (hr : r < M.length * t) (hcol : col < w) :
+    stateEntry m (blockMul m w M t v) r col =
+      ∑ c ∈ Finset.range M.length, LMat.get M (r / t) c * stateEntry m v (c * t + r % t) col := by
+  rw [stateEntry_get _ _ _ _ (by simpa [blockMul] using hr)]
+  simp only [blockMul, List.getElem_map, List.getElem_range]
+  rw [entry_mk _ _ _ hw _ hcol, sumTo_eq_sum]
+
+theorem blockMul_length (m : Mode) (w : Nat) (M : LMat α) (t : Nat) (v : List (Row α m)) :
+    (blockMul m w M t v).length = M.length * t := by simp [blockMul]
+
+theorem blockMul_rowsW (m : Mode) (w : Nat) (hw : OkWidth m w) (M : LMat α) (t : Nat) (v : List (Row α m)) :
+    RowsW m w (blockMul m w M t v) := by
+  intro r hr
+  simp only [blockMul, List.mem_map] at hr
+  obtain ⟨_, _, rfl⟩ := hr
+  exact width_mk _ _ _ hw
+
+/-- two states of rows of width `w` with the same entries are equal -/
+theorem state_ext (m : Mode) (w : Nat) (x y : List (Row α m)) (hl : x.length = y.length)
+    (hx : RowsW m w x) (hy : RowsW m w y)
+    (he : ∀ r col, r < x.length → col < w → stateEntry m x r col = stateEntry m y r col) : x = y := by
+  apply List.ext_getElem hl
+  intro r h1 h2
+  apply row_ext
+  · rw [hx _ (List.getElem_mem _), hy _ (List.getElem_mem _)]
+  · intro col hcol
+    rw [hx _ (List.getElem_mem _)] at hcol
+    have := he r col h1 hcol
+    rwa [stateEntry_get _ _ _ _ h1, stateEntry_get _ _ _ _ h2] at this
+
+theorem ctrl_spec (m : Mode) (w : Nat) (hw : OkWidth m w) (M : LMat α) (t : Nat) (v : List (Row α m))
+    (hlen : v.length = 2 * (M.length * t)) (hv : RowsW m w v) (inner : Option (List (Row α m)))
+    (hin : inner = some (blockMul m w M t (v.drop (v.length / 2)))) :
+    inner.map (v.take (v.length / 2) ++ ·) = some (blockMul m w (controlledMat M) t v) := by
+  subst hin
+  have hn : v.length / 2 = M.length * t := by omega
+  rw [hn, Option.map_some]
+  congr 1
+  set d := M.length with hd
+  apply state_ext m w
+  · rw [List.length_append, List.length_take, blockMul_length, blockMul_length, controlledMat_length, ← hd, hlen]
+    have : 2 * d * t = 2 * (d * t) := by ring
+    omega
+  · intro r hr
+    rcases List.mem_append.1 hr with h | h
+    · exact hv r (List.mem_of_mem_take h)
+    · exact blockMul_rowsW m w hw _ _ _ r h
+  · exact blockMul_rowsW m w hw _ _ _
+  · intro r col hr hcol
+    have hr' : r < 2 * (d * t) := by
+      rw [List.length_append, List.length_take, blockMul_length, ← hd, hlen] at hr; omega
+    have ht : 0 < t := by
+      rcases Nat.eq_zero_or_pos t with h | h
+      · subst h; simp at hr'
+      · exact h
+    have hrd : r / t < 2 * d := by
+      rw [Nat.div_lt_iff_lt_mul ht]; nlinarith
+    rw [blockMul_entry m w hw _ t v r col (by rw [controlledMat_length, ← hd]; nlinarith) hcol,
+      controlledMat_length, ← hd]
+    by_cases hlt : r < d * t
+    · -- identity block
+      have e1 : stateEntry m (List.take (d * t) v ++ blockMul m w M t (List.drop (d * t) v)) r col =
+          stateEntry m v r col := by
+        simp only [stateEntry]
+        rw [List.getElem?_append_left (by simp; omega)]
+        simp [hlt]
+      rw [e1]
+      have hq : r / t < d := by rw [Nat.div_lt_iff_lt_mul ht]; exact hlt
+      rw [Finset.sum_eq_single (r / t)]
+      · rw [get_controlledMat M _ _ (by rw [← hd]; exact hrd) (by rw [← hd]; exact hrd)]
+        simp [← hd, hq, Nat.div_add_mod']
+      · intro c hc hne
+        have hc' : c < 2 * d := Finset.mem_range.1 hc
+        rw [get_controlledMat M _ _ (by rw [← hd]; exact hrd) (by rw [← hd]; exact hc')]
+        simp [← hd, hq, Ne.symm hne]
+      · intro h; exact absurd (Finset.mem_range.2 hrd) h
+    · -- the gate block
+      have hge : d * t ≤ r := Nat.le_of_not_lt hlt
+      have e1 : stateEntry m (List.take (d * t) v ++ blockMul m w M t (List.drop (d * t) v)) r col =
+          stateEntry m (blockMul m w M t (List.drop (d * t) v)) (r - d * t) col := by
+        simp only [stateEntry]
+        rw [List.getElem?_append_right (by simp; omega)]
+        congr 2
+        simp; omega
+      rw [e1, blockMul_entry m w hw M t _ _ col (by rw [← hd]; omega) hcol, ← hd]
+      have hq : d ≤ r / t := by rw [Nat.le_div_iff_mul_le ht]; exact hge
+      have hsplit : r = (r - d * t) + d * t := by omega
+      have hdiv : (r - d * t) / t = r / t - d := by
+        have := Nat.add_mul_div_right (r - d * t) d ht
+        rw [← hsplit] at this; omega
+      have hmod : (r - d * t) % t = r % t := by
+        have := Nat.add_mul_mod_self_right (r - d * t) d t
+        rw [← hsplit] at this; exact this.symm
+      rw [hdiv, hmod, show 2 * d = d + d by ring, Finset.sum_range_add]
+      have z : ∑ x ∈ Finset.range d, LMat.get (controlledMat M) (r / t) x * stateEntry m v (x * t + r % t) col = 0 := by
+        apply Finset.sum_eq_zero
+        intro c hc
+        have hc' : c < d := Finset.mem_range.1 hc
+        rw [get_controlledMat M _ _ (by rw [← hd]; exact hrd) (by rw [← hd]; omega)]
+        have : r / t ≠ c := by omega
+        simp [← hd, hc', this]
+      rw [z, zero_add]
+      apply Finset.sum_congr rfl
+      intro c hc
+      have hc' : c < d := Finset.mem_range.1 hc
+      rw [get_controlledMat M _ _ (by rw [← hd]; exact hrd) (by rw [← hd]; omega), stateEntry_drop]
+      have h1 : ¬ (r / t < d ∨ d + c < d) := by omega
+      rw [← hd, if_neg h1]
+      congr 2
+      · omega
+      · ring_nf
+
+
 end Q1t.Proofs.Route
